@@ -1,6 +1,9 @@
 package main
 
 import (
+	"crypto/cipher"
+	"crypto/des"
+	"crypto/md5"
 	"fmt"
 	"os"
 	"os/exec"
@@ -30,6 +33,37 @@ type c09_rawSx string
 
 func (r c09_rawSx) String() string { return string(r) }
 
+// ssh1Encrypted re-writes the unencrypted SSH1 fixture as a key 3DES-encrypted under the EMPTY
+// passphrase (the only one inspection tries), with the given check bytes; SSH1's 3DES is three
+// independent CBC passes (encrypt k1, decrypt k2, encrypt k3, zero IVs), keys from MD5(passphrase).
+func ssh1Encrypted(check [2]byte) []byte {
+	src := fixture("ssh1/rsa")
+	hdr := len("SSH PRIVATE KEY FILE FORMAT 1.1\n\x00")
+	pos := hdr + 1 + 4 + 4
+	for k := 0; k < 2; k++ { // n, e
+		bits := int(src[pos])<<8 | int(src[pos+1])
+		pos += 2 + (bits+7)/8
+	}
+	clen := int(src[pos])<<24 | int(src[pos+1])<<16 | int(src[pos+2])<<8 | int(src[pos+3])
+	pos += 4 + clen
+	out := append([]byte{}, src[:pos]...)
+	out[hdr] = 3
+	priv := append([]byte{}, src[pos:]...)
+	priv[0], priv[1], priv[2], priv[3] = check[0], check[1], check[0], check[1]
+	for len(priv)%8 != 0 {
+		priv = append(priv, 0)
+	}
+	h := md5.Sum(nil)
+	c1, _ := des.NewCipher(h[0:8])
+	c2, _ := des.NewCipher(h[8:16])
+	c3, _ := des.NewCipher(h[0:8])
+	zero := make([]byte, 8)
+	cipher.NewCBCEncrypter(c1, zero).CryptBlocks(priv, priv)
+	cipher.NewCBCDecrypter(c2, zero).CryptBlocks(priv, priv)
+	cipher.NewCBCEncrypter(c3, zero).CryptBlocks(priv, priv)
+	return append(out, priv...)
+}
+
 func genC09(c *Ctx) {
 	dir := filepath.Join(c.Tmp, "c09")
 	os.MkdirAll(dir, 0o755)
@@ -56,6 +90,11 @@ func genC09(c *Ctx) {
 			addItem("fixture:"+s.tag, s.name, s.data)
 		}
 	}
+	// package-level state candidates: ciphers reused across keys (SSH1 3DES under the empty passphrase)
+	addItem("ssh1-3des-empty", "e1", ssh1Encrypted([2]byte{0x12, 0x34}))
+	addItem("ssh1-3des-empty", "e2", ssh1Encrypted([2]byte{0xab, 0xcd}))
+	addItem("ssh1-3des-other", "e3", fixture("ssh1/rsa-encrypted"))
+	stateful := len(pool)
 	addItem("pgp", "k.asc", armoredPGPKey(c.R, true))
 	addItem("jwt", "t.jwt", jwtWith(map[string]any{"sub": "x", "exp": "1700000000"}, map[string]any{"alg": "HS256"}))
 	addItem("uuid", "u.txt", []byte("1EC9414C-232A-6B00-B3C8-9E6BDECED846\n"))
@@ -103,6 +142,8 @@ func genC09(c *Ctx) {
 			switch {
 			case c.R.Intn(3) == 0:
 				it = pool[c.R.Intn(explicit)] // bias: the mutating path
+			case c.R.Intn(5) == 0:
+				it = pool[stateful-3+c.R.Intn(3)] // bias: encrypted SSH1 keys back to back
 			default:
 				it = pool[c.R.Intn(len(pool))]
 			}
